@@ -31,6 +31,8 @@ type crossCase struct {
 	Fan int `json:"fan_out_behind_the_reference,omitempty"`
 	// Shared: the host's two directions run over the same processor keys
 	Shared bool `json:"same_processors_in_both_directions,omitempty"`
+	// TwinFan: one of the fan-out's connections leads to Lib.K0 and another to the host's own K0
+	TwinFan bool `json:"fan_out_to_processors_with_one_key_in_two_flows,omitempty"`
 }
 
 func pEnd(key, cond string) fg.End { return fg.End{Proc: key, Cond: cond} }
@@ -153,6 +155,13 @@ func genCross() *rapid.Generator[crossCase] {
 			c.A.Req[0].To = fg.End{Proc: "Lib.K0"}
 			c.A.Req = append(c.A.Req, fg.Conn{From: pEnd("Lib.K0", "hit"), To: first}, fg.Conn{From: pEnd("Lib.K0", "miss"), To: fg.End{Proc: "K0"}},
 				fg.Conn{From: pEnd("K0", "hit"), To: first}, fg.Conn{From: pEnd("K0", "miss"), To: first})
+		}
+		if c.Lib != nil && ga == nil && rapid.IntRange(0, 1).Draw(t, "fan-to-own-k0") == 0 {
+			// a further connection leaves "flow Guard at end" for the host's own K0, next to the one for Lib.K0: two
+			// connections with one condition whose targets have the same key in different flows - both are followed
+			c.A.Req = append(c.A.Req, fg.Conn{From: fg.End{Flow: "Guard", At: "end"}, To: fg.End{Proc: "K0"}})
+			c.Fan++
+			c.TwinFan = true
 		}
 		toX := fg.End{Flow: "Guard", At: "start"}
 		c.A.Resp = genSide(t, "aresp", sk, fg.StreamStart(), []fg.End{toX, fg.StreamEnd()}, &toX)
@@ -338,6 +347,9 @@ func runCross(r *ev.Recorder, rec *engine.Recorder, c crossCase) (nontrivial boo
 	nontrivial = crossed || w.answered != ""
 	if crossed {
 		r.Class("request path crosses from the referenced flow into the host flow")
+		if c.TwinFan {
+			r.Class("fan-out to two processors that have one key in two flows (Lib.K0 and the host's K0)")
+		}
 		if c.Fan > 0 {
 			r.Class("request path crosses into a host flow that fans out directly behind the reference")
 		}
